@@ -129,6 +129,11 @@ def pinv(ctx, rule="R06.3"):
 
 
 def run(ctx):
+    from .C12 import swap_lint
+    from .C18 import mirror_pipelines
+
+    mirror_pipelines(ctx, rule="R06.7")  # conditions are transformed by the exact inverse of what post_field applies, else data are not honoured (shared with C18)
+    swap_lint(ctx, rule="R06.8")  # swapped same-typed arguments (mean / trend ...) at in-package call sites (shared with C12)
     from .C05 import covariance_family, krige_state, layout, symmetric
 
     # exactness at the data needs the whole system to be the kriging system of the current model: assembly and derived state (shared with C05)
